@@ -1,12 +1,16 @@
 import PlaybackProofs.RecorderFinish
+import PlaybackProofs.RecorderHistory
+import PlaybackProofs.RecorderIdle
 /-!
 # C17 — The sampling policy alone decides which recordings are kept
 
 `atFinally cfg s p` is the recorder state when the operation's `finally` block runs; its `active` field says whether the
 recording was discarded meanwhile (explicitly or by a capture failure), its `forced` field whether forcing was requested
 and honoured.  Rates and draws are exact rationals (`Q`); `headDraw s` is the next value of the seeded generator.
-The long-run fraction statement is the law of large numbers applied to `C17_policy` + `C17_draws` for independent uniform
-draws and is NOT formalised (no measure theory here): partial, as DESIGN.md says.
+The long-run fraction statement is proved in its counting form (`C17_kept_count`): over any history of N recorded
+operations of one class the number kept equals the number of the next N draws that are within the rate, one draw each.
+That this fraction tends to the rate for independent uniform draws is the law of large numbers and is NOT formalised (no
+measure theory here): partial, as DESIGN.md says.
 -/
 namespace Properties.C17
 open PlaybackModel.Recorder
@@ -133,7 +137,74 @@ theorem C17_s3_same_rule (r d : Q) :
     s3ShouldSample (some r) d = keepDecision false { rate := r } d ∧ s3ShouldSample none d = true := by
   simp [s3ShouldSample, keepDecision]
 
+/-- number of recordings handed to the cassette to be saved -/
+def saves (l : List Ev) : Nat := (l.filter (fun e => match e with | .save _ => true | _ => false)).length
+
+/-- an operation that neither discards its recording nor asks for forced sampling, on whatever idle recorder it runs -/
+def Quiet (cfg : OpCfg) (p : Prog) : Prop :=
+  ∀ s : St, s.Idle → s.enabled = true → (atFinally cfg s p).active.isSome = true ∧ (atFinally cfg s p).forced = false
+
+theorem saves_append_pair (l : List Ev) (i : Nat) (b : Bool) :
+    saves (l ++ [.create i, if b then .save i else .abort i]) = saves l + (if b then 1 else 0) := by
+  unfold saves
+  rw [List.filter_append]
+  cases b <;> simp [List.filter]
+
+/-- **The kept fraction, counting form.**  A history of `ps.length` recorded operations of one class with a rate below 1,
+none of them discarded or forced (whatever they do otherwise: return, raise, be interrupted), on a recorder whose seeded
+generator still has that many draws: exactly one draw is consumed per operation, in order, and the number of recordings
+kept equals the number of those draws that are within the rate. -/
+theorem C17_kept_count (ao : AliasOracle) (cfg : OpCfg) (hsk : cfg.params.skipped = false)
+    (hr : cfg.params.rate.geOne = false) :
+    ∀ (ps : List Prog) (s : St), s.Idle → s.enabled = true → (∀ p ∈ ps, Quiet cfg p) → ps.length ≤ s.draws.length →
+      saves (execAll ao s (ps.map (Run.op cfg))).log =
+        saves s.log + ((s.draws.take ps.length).filter (fun d => d.le cfg.params.rate)).length ∧
+      (execAll ao s (ps.map (Run.op cfg))).drawn = s.drawn + ps.length ∧
+      (execAll ao s (ps.map (Run.op cfg))).draws = s.draws.drop ps.length := by
+  intro ps
+  induction ps with
+  | nil => intro s _ _ _ _; simp [execAll]
+  | cons p rest ih =>
+    intro s hidle hen hq hlen
+    obtain ⟨hact, hforced⟩ := hq p (List.mem_cons_self) s hidle hen
+    have hdec := runOperation_decision ao cfg s p hidle hen hsk
+    have hdr := runOperation_draws ao cfg s p hidle hen hsk
+    have hidle' : (runOperation ao cfg s p).1.Idle := by
+      obtain ⟨ha, hf, hc, hp, hpo, hi⟩ := hidle
+      obtain ⟨_, _, _, h1, h2, h3, h4, h5, h6⟩ := runOperation_recording_spec ao cfg s p hp hpo hen hsk ha
+      exact ⟨h1, h2, h3, h4, h5, by rw [h6]; exact hi⟩
+    cases ha : (atFinally cfg s p).active with
+    | none => simp [ha] at hact
+    | some a =>
+      rw [ha] at hdec hdr
+      obtain ⟨_, _, hlog, hdrawn⟩ := hdec
+      simp only [hforced, keepDecision, drawsUsed, hr, Bool.false_or, Bool.or_self, Bool.false_eq_true, if_false,
+        Nat.one_ne_zero] at hlog hdrawn hdr
+      cases hds : s.draws with
+      | nil => simp [hds] at hlen
+      | cons d ds =>
+        have hhd : headDraw s = d := by simp [headDraw, hds]
+        rw [hhd] at hlog
+        rw [hds] at hdr
+        simp only [List.tail_cons] at hdr
+        have hlen' : rest.length ≤ (runOperation ao cfg s p).1.draws.length := by
+          rw [hdr.1]; simp only [List.length_cons, hds] at hlen; omega
+        obtain ⟨i1, i2, i3⟩ := ih (runOperation ao cfg s p).1 hidle' hdr.2
+          (fun q hq' => hq q (List.mem_cons_of_mem _ hq')) hlen'
+        simp only [List.map_cons, execAll, execRun, List.length_cons]
+        refine ⟨?_, ?_, ?_⟩
+        · rw [i1, hlog, saves_append_pair, hdr.1]
+          simp only [List.take_succ_cons, List.filter_cons]
+          cases d.le cfg.params.rate <;> simp <;> omega
+        · rw [i2, hdrawn]; omega
+        · rw [i3, hdr.1]; simp
+
 /-! Non-vacuity: the four rate regimes of the table. -/
+example : Quiet { cls := "Op" } (.done (.out (.ret (.atom "1")))) := by
+  intro s hidle hen
+  obtain ⟨ha, hf, hc, hp, hpo, hi⟩ := hidle
+  simp [atFinally, opened, startRec, tick, addLog, execOperationFunc, exec, inPlaybackMode, hp, write, hf]
+  cases s.clock <;> simp [write, hf]
 example : keepDecision false { rate := ⟨0, 1⟩ } ⟨0, 1⟩ = true ∧ keepDecision false { rate := ⟨0, 1⟩ } ⟨1, 4⟩ = false ∧
     keepDecision false { rate := ⟨1, 2⟩ } ⟨1, 2⟩ = true ∧ keepDecision false { rate := ⟨1, 2⟩ } ⟨3, 4⟩ = false ∧
     keepDecision false { rate := ⟨3, 2⟩ } ⟨3, 4⟩ = true ∧ keepDecision true { rate := ⟨0, 1⟩ } ⟨3, 4⟩ = true := by decide
